@@ -56,6 +56,32 @@ class TNOps(TNCtor):
         self.probe('hamiltonian_rescaled_in_place')
         return 'ok'
 
+    def op_shift_H(self, op):
+        """History: the user shifts a Hamiltonian by a multiple of the identity (H + c 1, built with the library's own
+        identity constructor and MPO addition): same eigenvectors, spectrum moved to one side of zero - damped or growing
+        evolution for time steps with a real part."""
+        ptn = self.ptn
+        H = self.pick(op['sel'], 'mpo', lambda x: x.herm and dn.is_int_1d_array(x.ref.qD[0]) and int(x.ref.qD[0][0]) == 0 and int(x.ref.qD[-1][0]) == 0
+                      and not any(np.issubdtype(a.dtype, np.integer) for a in x.ref.A) and max(bond_dims(x.ref, 'mpo')) < 60)
+        if H is None:
+            return 'skipped'
+        c = float(op['rel']) * self.opnorm2(H)
+        if not np.isfinite(c) or c == 0:
+            return 'skipped'
+        qd_arg = np.array(H.ref.qd, dtype=int)
+
+        def fn():
+            I = ptn.MPO.identity(qd_arg, len(H.ref.A), scale=1.0, dtype=complex)
+            I.A[0] = I.A[0] * c
+            return H.ref + I
+        st, ref = self.guarded(op, fn, operands=(H,), owners=('C03',))
+        if st != 'ok':
+            return st
+        want = H.dense + c * np.identity(H.dense.shape[0])
+        self.finish_new('mpo', ref, H.tag + '+shift', op, c03_model=want)
+        self.probe('hamiltonian_shifted_by_identity')
+        return 'ok'
+
     def transient_extreme(self, o, op):
         """Same object, tensors of extreme but compensating magnitude (exact powers of two); every in-place
         algorithm starts with a QR sweep that re-balances it, so no extreme object stays in the pool."""
@@ -89,7 +115,7 @@ class TNOps(TNCtor):
         o.traj = None
         self.resync(o)
         if o.retired:
-            self.check(False, ['C01', 'C02'], 'object_unusable', 'orthonormalize left an object that cannot be contracted')
+            self.unusable(o, ['C01', 'C02'], 'orthonormalize left an object that cannot be contracted')
             return 'ok'
         P = 'C01'
         isnum = isinstance(c, (int, float, np.integer, np.floating)) and np.isfinite(c)
@@ -318,7 +344,7 @@ class TNOps(TNCtor):
         self.resync(o)
         P = 'C13'
         if o.retired:
-            self.check(False, [P, 'C02'], 'object_unusable', 'compress left an object that cannot be contracted')
+            self.unusable(o, [P, 'C02'], 'compress left an object that cannot be contracted')
             return 'ok'
         try:
             nrm, scale = res
@@ -507,8 +533,8 @@ class TNOps(TNCtor):
         self.compare_pool(snap, set(), 'operand_or_bystander_modified')
         if exc is not None:
             self.kernel_state = None
-            from .seams import InjectedBackendFailure
-            if isinstance(exc, InjectedBackendFailure):
+            from .seams import InjectedBackendFailure, environmental_exception
+            if isinstance(exc, InjectedBackendFailure) or (environmental_exception(exc, op.get('env')) and 'GLOBALS' in self.env.enabled):
                 # an injected backend failure may propagate; the caller's arrays must be intact (checked below)
                 self.check(A.tobytes() == Ab0 and q0.tobytes() == q0b0 and q1.tobytes() == q1b0, ['C19', 'C11' if which == 'qr' else 'C12'],
                            'inputs_unmodified_after_failure', f'{which} kernel modified its arguments before failing')
@@ -538,7 +564,7 @@ class TNOps(TNCtor):
         o = self.add_obj(kind, ref, tag)
         self.check_c02(o, f'{tag} result')
         if o.retired:
-            self.check(False, ['C03', 'C02'], 'object_unusable', f'{tag} returned an object that cannot be contracted')
+            self.unusable(o, ['C03', 'C02'], f'{tag} returned an object that cannot be contracted')
             return 'ok'
         dev = float(np.linalg.norm(o.dense - want))
         self.check(dev <= TOL * max(sc, float(np.linalg.norm(want))), 'C03', tag + '_dense', lambda: f'|dense({tag}) - expected|={dev:.3e} scale={sc:.3e}')
@@ -600,6 +626,14 @@ class TNOps(TNCtor):
             return True
         return False
 
+    def int_may_wrap(self, o):
+        """Integer-typed tensors are contracted in int64 by numpy; once a partial product can exceed 2^62 (long chains of
+        integer tensors) the silent wrap-around is numpy's, outside what C03 quantifies over (cf. the C04 skip)."""
+        if any(np.issubdtype(a.dtype, np.integer) for a in o.ref.A) and o.scale >= 2.0 ** 62:
+            self.skip('integer_contraction_may_wrap_int64_outside_domain')
+            return True
+        return False
+
     def op_as_vector(self, op):
         o = self.pick(op['sel'], 'mps')
         if o is None:
@@ -608,6 +642,8 @@ class TNOps(TNCtor):
         if st != 'ok':
             return st
         v = np.asarray(v)
+        if self.int_may_wrap(o):
+            return 'ok'
         ok = v.shape == o.dense.shape
         dev = float(np.linalg.norm(v - o.dense)) if ok else np.inf
         self.check(ok and dev <= TOL * o.scale, 'C03', 'as_vector', lambda: f'|as_vector - contraction|={dev:.3e}')
@@ -628,6 +664,8 @@ class TNOps(TNCtor):
                 self.check(False, 'C03', 'as_matrix_sparse_type', f'{type(M).__name__}: {e}')
                 return 'ok'
         M = np.asarray(M)
+        if self.int_may_wrap(o):
+            return 'ok'
         ok = M.shape == o.dense.shape
         dev = float(np.linalg.norm(M - o.dense)) if ok else np.inf
         self.check(ok and dev <= TOL * o.scale, 'C03', 'as_matrix_sparse' if sp else 'as_matrix_dense', lambda: f'|as_matrix - contraction|={dev:.3e} shape {M.shape}')
